@@ -167,9 +167,24 @@ def run(ck, facts):
         ("js/method.js.jinja", r"wasm\.⟦\s*abi_name\s*⟧\s*\(", "wasm.abi_name("),
         ("js/opaque.js.jinja", r"wasm\.⟦\s*destructor\s*⟧\s*\(\s*ptr\s*\)", "wasm.destructor(ptr)"),
     ]
+    # control statements allowed around each slot (anything else makes a reference to an exported symbol conditional on unrelated data)
+    slot_guards = {
+        ("c/impl.h.jinja", "prototype name = method.abi_name"): ["for method in methods"],
+        ("c/impl.h.jinja", "destructor prototype = dtor_name"): ["match dtor_name / when Some with (dtor_name)"],
+        ("kotlin/Opaque.kt.jinja", "lib.dtor_abi_name(handle)"): ["if !use_finalizers_not_cleaners"],
+        ("js/method.js.jinja", "wasm.abi_name("): ["if typescript / else"],
+        ("js/opaque.js.jinja", "wasm.destructor(ptr)"): ["block header_info", "if !typescript"],
+    }
     for rel, rx, what in checks:
         fl = tmpl.flat_file(rel, resolve_includes=False)
-        ck.expect(re.search(rx, fl) is not None, "R3", "%s/%s" % (rel, what), what, "template %s no longer prints the symbol slot (%s)" % (rel, what), "tool/templates/" + rel)
+        mm = re.search(rx, fl)
+        ck.expect(mm is not None, "R3", "%s/%s" % (rel, what), what, "template %s no longer prints the symbol slot (%s)" % (rel, what), "tool/templates/" + rel)
+        if mm:
+            g = tmpl.guards_at(fl, mm.start())
+            want = slot_guards.get((rel, what), [])
+            ck.expect(g == want, "R3", "%s/%s/guards" % (rel, what), str(g),
+                      "the symbol slot (%s) is now emitted under %s (expected %s): the exported symbol is declared/used only when an unrelated condition holds "
+                      "(e.g. no destructor declaration for a type without methods)" % (what, g, want), "tool/templates/" + rel)
     # no template builds a destructor/method symbol by hand
     import glob
     import os
@@ -231,3 +246,13 @@ def run(ck, facts):
     i_ext = next((i for i, s in enumerate(items) if any((C.callee(x) or "").endswith("AttributeInfo::extract") for x in C.calls_in(s))), None)
     ck.expect(i_ast is not None and i_ext is not None and i_ast < i_ext, "R5", "macro::gen_bridge/ast-before-strip", "from_syn at %s, first extract at %s" % (i_ast, i_ext),
               "gen_bridge strips attributes (statement %s) before building the AST (statement %s): module-level abi_rename/attrs are invisible to the macro while the tool still sees them" % (i_ext, i_ast), C.loc(gb))
+
+    # ---------------- R6 clauses shared with C14 and C13
+    # (a) the tool analyses exactly the modules the macro expands: a plain `mod` nested in a bridge is not a bridge (C14.R3);
+    # (b) abi_rename on one impl block does not leak onto later impl blocks (ast::Attrs accumulators are per item, C13.R7).
+    import c14
+    import c13
+    sub = C.SubCheck(ck, "R6", "the tool lowers exactly the items the macro exports (nested plain modules are not analysed) and abi_rename is inherited per impl block, never carried to sibling items", ["R3"])
+    c14.run(sub, facts)
+    sub2 = C.SubCheck(ck, "R6", "", ["R7"])
+    c13.run(sub2, facts)
